@@ -1,1 +1,2 @@
 pub mod c09_number;
+pub mod step;
